@@ -15,16 +15,17 @@ MENUS = collections.OrderedDict([
     ('interval', [2, 3, 7, 12, 24, 60, 9, 90]),     # 9 / 90: 1 < gcd(interval, 24 or 60) < interval
     ('wkst', [1, 3, 6]),
     ('bysetpos', [1, -1, (2, -2), 3]),
-    ('bymonth', [1, (2, 12), (4, 9), 2]),
+    ('bymonth', [1, (2, 12), (4, 9), 2, (1, 2)]),             # (1, 2): neighbours, so an nth weekday that spills over lands in a listed month
     ('bymonthday', [1, 31, -1, (29, -31), (15, -2)]),
     ('byyearday', [1, 366, -1, (60, -366), (100, 200, -100)]),
     ('byweekno', [1, 53, -1, (52, -53), 20, (2, -2)]),
     ('byweekday', [(TU, None), ((MO, None), (FR, None)), (TU, 1), (FR, -1), ((SU, 2), (SA, -2)),
-                   ((MO, None), (FR, 1)), ((FR, -1), (TH, None)), (SU, 5), (SU, -5), (MO, 53), (WE, -53), TH]),
+                   ((MO, None), (FR, 1)), ((FR, -1), (TH, None)), (SU, 5), (SU, -5), (MO, 53), (WE, -53), TH,
+                   (TU, 10), (FR, -20)]),                       # ordinals written with a zero digit
     ('byeaster', [0, (-2, 1), 49, -100, 300]),
     ('byhour', [0, (6, 18), 23]),
-    ('byminute', [0, (15, 45), 59, (0, 30)]),
-    ('bysecond', [0, (10, 50), 59, (0, 30)]),
+    ('byminute', [0, (15, 45), 59, (0, 30), (12, 19, 36, 43)]),   # 12/36 (19/43 from minute 7) need gcd(interval, 60), not gcd(interval, 24)
+    ('bysecond', [0, (10, 50), 59, (0, 30), (8, 12, 20, 36)]),
     ('term', [('count', 1), ('count', 7), ('until', 'occ'), ('until', 'occ-1s'), ('until', 'date'), ('count', 0),
               # both given (the constructor only warns): whichever ends the sequence first does
               ('until', 'occ', 2), ('until', 'occ', 7)]),
